@@ -23,7 +23,7 @@ NA = {
 CHECKS = {
  "C01": dict(cat="exploration", ref="DESIGN.md 4.1",
    text="Seeded search over session histories Load; (Edit*; Save; [Environment]; Reload)^k through the simulated file system, under a controlled hash seed, read-chunking schedule and (separate configuration) injected I/O faults; oracles: reload succeeds, model equality, byte fixpoint, hash-seed independence (also for API-built IF_DATA whose tagged items tie on position id), file = text. Sampling over generated documents and histories; clean batches are evidence, not proof.",
-   note="Trusted: frozen grammar table and document generator (validated against the unchanged tree: every generated document strict-loads without diagnostics); the crate's own PartialEq as the meaning of 'equal'; VFS models whole-file POSIX semantics only.",
+   note="Trusted: frozen grammar table and document generator (validated against the unchanged tree: every generated document strict-loads without diagnostics); the crate's own PartialEq as the meaning of 'equal' (cross-checked on sampled cycles by element-wise Debug renderings, IF_DATA excluded); VFS models whole-file POSIX semantics only.",
    tech="deterministic simulation: seeded save/reload histories over an in-memory VFS with fault injection and controlled hash-iteration order"),
  "C03": dict(cat="fault_enumeration", ref="DESIGN.md 4.2",
    text="Valid generated documents damaged by storage faults and read by every entry point in every configuration: per document every truncation point (every crash point of a writer) and every single-token deletion / duplication / swap are enumerated, plus seeded multi-fault runs with byte-granular regions on UTF-8/16/32 files under read chunking and I/O faults, plus include trees with damaged or missing files. Oracle: the call returns; no panic, no overflow, fuel not exhausted. Exhaustive only relative to each generated document; documents are sampled.",
